@@ -514,7 +514,12 @@ impl Communicator {
     ///
     /// [`capture`]: struct.CommunicateError.html#structfield.capture
     pub fn read(&mut self) -> Result<(Option<Vec<u8>>, Option<Vec<u8>>), CommunicateError> {
-        let deadline = self.time_limit.map(|timeout| Instant::now() + timeout);
+        // A limit so large that it cannot be added to the clock (e.g.
+        // Duration::MAX) never expires: treat it as no limit rather than
+        // panic on the overflow.
+        let deadline = self
+            .time_limit
+            .and_then(|timeout| Instant::now().checked_add(timeout));
         match self.inner.read(deadline, self.size_limit) {
             (None, capture) => Ok(capture),
             (Some(error), capture) => Err(CommunicateError { error, capture }),
